@@ -57,6 +57,10 @@ pub struct Cli {
 
 /// Parse `<PROPERTY> [--tier quick|thorough] [--replay path] [--key value]*`.
 pub fn parse_cli() -> Cli {
+    // anyhow captures a backtrace (under a global lock) for every error when these are
+    // set; traps are ordinary outcomes here, so switch that off before any thread starts.
+    std::env::set_var("RUST_BACKTRACE", "0");
+    std::env::set_var("RUST_LIB_BACKTRACE", "0");
     let mut args = std::env::args().skip(1);
     let property = args.next().unwrap_or_else(|| machinery_error("usage: <engine> <PROPERTY> [--tier quick|thorough] [--replay <path>]"));
     let mut tier = match std::env::var("VERIF_TIER").ok().as_deref() {
@@ -259,13 +263,7 @@ impl Report {
                 return;
             }
         }
-        let n = self.new_violations.fetch_add(1, Ordering::Relaxed);
-        if (n as usize) >= self.max_reported {
-            return;
-        }
-        let dir = Path::new(VERIF_ROOT).join("out").join("violations");
-        let _ = std::fs::create_dir_all(&dir);
-        let path = dir.join(format!("{}-{}-{}.json", self.property, self.tier.as_str(), n));
+        self.new_violations.fetch_add(1, Ordering::Relaxed);
         let doc = json!({
             "property": self.property,
             "kind": kind,
@@ -274,14 +272,34 @@ impl Report {
             "seed": self.seed,
             "tier": self.tier.as_str(),
         });
-        let _ = std::fs::write(&path, serde_json::to_vec_pretty(&doc).unwrap());
-        println!("VIOLATION property={} replay={}", self.property, path.display());
-        println!("  kind={kind} witness={}", doc["witness"]);
-        self.violations.lock().unwrap().push((kind.to_string(), doc));
+        let mut v = self.violations.lock().unwrap();
+        v.push((kind.to_string(), doc));
+        // keep memory bounded: retain the smallest witnesses only
+        if v.len() > 4096 {
+            v.sort_by_key(|(_, d)| d["witness"].to_string().len());
+            v.truncate(1024);
+        }
+    }
+
+    /// Write the buffered violations, smallest witness first (so the first artefact is the
+    /// easiest to explain), and print the VIOLATION lines.
+    fn flush_violations(&self) {
+        let mut v = self.violations.lock().unwrap();
+        v.sort_by_key(|(_, d)| (d["witness"].to_string().len(), d["witness"].to_string()));
+        let dir = Path::new(VERIF_ROOT).join("out").join("violations");
+        let _ = std::fs::create_dir_all(&dir);
+        for (n, (kind, doc)) in v.iter().take(self.max_reported).enumerate() {
+            let path = dir.join(format!("{}-{}-{}.json", self.property, self.tier.as_str(), n));
+            let _ = std::fs::write(&path, serde_json::to_vec_pretty(doc).unwrap());
+            println!("VIOLATION property={} replay={}", self.property, path.display());
+            println!("  kind={kind} witness={}", doc["witness"]);
+            println!("  detail={}", doc["detail"]);
+        }
     }
 
     /// Write the evidence file and exit with the contract's exit code.
     pub fn finish(&self, exhaustive: bool, bound_completed: Value) -> ! {
+        self.flush_violations();
         let wall = self.elapsed_s();
         let outcomes = self.outcomes.lock().unwrap().clone();
         let mut coverage = serde_json::Map::new();
